@@ -182,6 +182,35 @@ def gen_pairs(r, hier, n, td, vd):
   return pairs
 
 
+def gen_near_miss_pairs(r, hier, n, stats):
+  """Conforming value + single-place variants per sampled annotation (see c02_gen: NEAR-MISS stream)."""
+  pairs = []
+  def bump(key, sub):
+    d = stats.setdefault(key, {})
+    d[sub] = d.get(sub, 0) + 1
+  while len(pairs) < n:
+    form, t = G.gen_near_miss_type(r, hier)
+    v = G.gen_conforming(r, hier, t)
+    if v is None or not G.valid_val(v) or G.n_slices(v) >= 200 or not G.inh_dev(set(), t, v, hier):
+      stats["rejected_candidates"] = stats.get("rejected_candidates", 0) + 1
+      continue
+    bump("annotation_forms", form)
+    stats["conforming_values"] = stats.get("conforming_values", 0) + 1
+    if v[0] == "tuple" and len(v[1]) >= 2 and all(G._is_container(e) and e[0] == v[1][0][0] for e in v[1]):   # pylint: disable=protected-access
+      stats["tuple_displays_of_>=2_same_class_containers"] = \
+          stats.get("tuple_displays_of_>=2_same_class_containers", 0) + 1
+    pairs.append((t, v))
+    for kind, label, w in G.near_miss_variants(r, hier, v):
+      if G.n_slices(w) >= 200:
+        continue
+      bump("mutation_kinds", kind)
+      bump("mutated_position", label)
+      conf = G.inh_dev(set(), t, w, hier)
+      bump("variants", "still_conforming" if conf else "non_conforming")
+      pairs.append((t, w))
+  return pairs[:n]
+
+
 def small_types(hier):
   """Every annotation of depth <= 1 over a reduced atom set (thorough tier)."""
   atoms = [("cls", s, ()) for s in ("int", "float", "bool", "str", "bytes", "none", "object")] + [G.ANY_T]
@@ -353,8 +382,11 @@ def run(res):
               "from literals, displays, tuple()/frozenset() calls, instances, class objects, lambdas; 45% of the "
               "values are built to inhabit T.  Each pair is checked at three sites (argument, return, annotated "
               "assignment), 50 pairs per analysed module.  A case is non-trivial if T is not Any/object; distinct "
-              "by (rendered T, rendered V, hierarchy).  quick: 1000 sampled pairs (1/3 of depth<=1, 2/3 of depth 2) + "
-              "corpus; thorough: 3500 sampled pairs + a uniform sample (default 8000, VERIF_C02_EXHAUSTIVE_CAP) "
+              "by (rendered T, rendered V, hierarchy).  quick: corpus + 500 NEAR-MISS pairs (for a sampled annotation "
+              "biased to depth-2 forms a value generated to conform, then variants differing from it in exactly "
+              "one place: first/middle/LAST leaf swapped for another type, one element dropped, one container "
+              "class changed) + 500 independently sampled pairs (1/3 of depth<=1, 2/3 of depth 2); thorough: 1500 "
+              "near-miss + 2500 sampled pairs + a uniform sample (default 8000, VERIF_C02_EXHAUSTIVE_CAP) "
               "of the full product of every depth<=1 annotation x every depth<=1 value over a reduced atom set "
               "(319 x 209 pairs).")
   res.assumptions = [
@@ -389,7 +421,13 @@ def run(res):
   batches = []          # (name, hier, pairs)
   for name, hier, pairs in load_corpus():
     batches.append(("corpus:" + name, hier, pairs))
-  n_rand = 3500 if thorough else 1000
+  n_rand = 2500 if thorough else 500
+  n_near = 1500 if thorough else 500
+  nm_stats = {}
+  for b in range(n_near // BATCH):
+    hier = G.Hier.random(r)
+    batches.append(("near%d" % b, hier, gen_near_miss_pairs(r, hier, BATCH, nm_stats)))
+  res.extra["near_miss_stream"] = nm_stats
   for b in range(n_rand // BATCH):
     hier = G.Hier.random(r)
     if b % 3 == 0:
@@ -403,7 +441,7 @@ def run(res):
     allp = [(t, v) for t in ts for v in vs]
     r.shuffle(allp)
     cap = int(os.environ.get("VERIF_C02_EXHAUSTIVE_CAP", "8000"))
-    res.extra["exhaustive"] = ("%d depth<=1 annotations x %d depth<=1 values = %d pairs%s" % (
+    res.extra["exhaustive_scope"] = ("%d depth<=1 annotations x %d depth<=1 values = %d pairs%s" % (
         len(ts), len(vs), len(allp), "" if len(allp) <= cap else " (uniform sample of %d)" % cap))
     allp = allp[:cap]
     for i in range(0, len(allp), BATCH):
